@@ -48,6 +48,8 @@ func (o opSpec) String() string {
 		return fmt.Sprintf("h.Update(%s)", o.val)
 	case "hval":
 		return "h.Value"
+	case "rootval":
+		return "GetLeafValue(<root>)"
 	}
 	return "?"
 }
@@ -79,7 +81,14 @@ var walkStop = opSpec{"walkstop", nil, ""}
 // meet an Add that passes through it.
 var addRoot = opSpec{"add", []string{}, "v1"}
 
-var extras = []opSpec{addDeep, walkSorted, addTop, walkStop, addRoot}
+// rootVal looks up the value at the empty path: the root of an empty tree holds
+// nothing and turns into a branch IN PLACE when the first leaf is added below
+// it, so the lookup's view of "is it a branch" and "what does it hold" must be
+// one atomic look (the answer is the value stored at the root, else nil - never
+// anything else, such as the node's child map).
+var rootVal = opSpec{"rootval", nil, ""}
+
+var extras = []opSpec{addDeep, walkSorted, addTop, walkStop, addRoot, rootVal}
 
 var alphaQuick = []opSpec{
 	{"add", ab, "v1"}, {"add", ac, "v1"}, {"add", ab, "v2"},
@@ -502,6 +511,18 @@ func lops(rs []rec) []hutil.LOp {
 					return []hutil.State{m}
 				}})
 			}
+		case "rootval":
+			out = append(out, hutil.LOp{Inv: r.inv, Ret: r.ret, Thread: r.thread, Name: fmt.Sprintf("GetLeafValue(<root>)=%s", r.val), Step: func(s hutil.State) []hutil.State {
+				m := s.(*mst)
+				want := "<nil>"
+				if id, ok := m.tree[""]; ok {
+					want = m.val[id]
+				}
+				if want != r.val {
+					return nil
+				}
+				return []hutil.State{m}
+			}})
 		case "hupd":
 			out = append(out, hutil.LOp{Inv: r.inv, Ret: r.ret, Thread: r.thread, Name: r.spec.String(), Step: func(s hutil.State) []hutil.State {
 				n := s.(*mst).clone()
@@ -603,6 +624,8 @@ func (harness) Run(cfg xplore.Config, ch vrt.Chooser, trace bool) (xplore.Outcom
 						}
 					case "hupd":
 						h.Update(o.val)
+					case "rootval":
+						r.val = fmt.Sprint(t.GetLeafValue([]string{}))
 					case "hval":
 						r.val = fmt.Sprint(h.Value())
 					case "walkstop":
